@@ -225,8 +225,11 @@ Definition client13 (O : Orc) (r : Run) : res Session :=
                 (* 1493-1504 (fix 61d7222): the scheme must be one the ClientHello offered.
                    Before the fix this branch was `Ok (...)` unconditionally and
                    scheme_must_be_offered was refuted by run_w1. *)
-                if sch_in sch0 (r_offered r) then Ok (cm_key cm, sch0, cm_curve_hash cm, false)
-                else alert illegal_parameter
+                if negb (sch_in sch0 (r_offered r)) then alert illegal_parameter
+                (* /repo 7ffe769: ... and it must fit the key type of the server certificate
+                   (scheme in _sigHashesToList(settings, certList=serverCertChain, (3, 4)) = r_valid) *)
+                else if negb (sch_in sch0 (r_valid r)) then alert illegal_parameter
+                else Ok (cm_key cm, sch0, cm_curve_hash cm, false)
               | [d] =>
                 if is_nil (r_dc_offered r) then alert unexpected_message
                 else _ <- dc_verify O r cm d sch0 ;; Ok (dc_key d, dc_cv_alg d, dc_curve_hash d, true)
@@ -414,6 +417,9 @@ Definition server12_resume (O : Orc) (r : Run) : res (option Session) :=
   match r_psk r with
   | None => Ok None
   | Some _ =>
+    (* since /repo d08ab2e `self.session = session` is bound BEFORE the Finished exchange so that a failure
+       invalidates the resumed session (resumable := False, connection closed); the identities count as
+       attributed to the peer when the call returns, which is what this flow's result describes *)
     let go :=
       _ <- opt_alert (r_kx_alert r) ;;      (* other consistency checks with the ClientHello (SNI, EtM, EMS, renegotiation): input *)
       _ <- records r ;;
